@@ -7,6 +7,7 @@
 import SparseV.Model.Basic
 import SparseV.Generated.Utils
 import SparseV.Generated.Slicing
+import SparseV.Model.Width
 namespace SparseV
 namespace Validate
 
@@ -210,6 +211,24 @@ def gcxsContract (dataLen : Nat) (indices indptr : List Int) (sh : List Int) (ca
 
 instance (dataLen : Nat) (indices indptr sh : List Int) (caxes : Option (List Int)) : Decidable (gcxsContract dataLen indices indptr sh caxes) := by
   unfold gcxsContract; infer_instance
+
+/-- two ways of asking whether index pointers STORED in the integer type `t` decrease somewhere -/
+inductive MonoTest where
+  /-- `np.any(indptr[1:] < indptr[:-1])`: a comparison of stored values — exact in every integer type (what the code does) -/
+  | sliceCompare
+  /-- `np.any(np.diff(indptr) < 0)`: the differences are computed IN the type, so they wrap for unsigned types -/
+  | diffSign
+  deriving DecidableEq, Repr
+
+/-- the adjacent differences as an array of type `t` holds them -/
+def diffsIn (t : IdxTy) : List Int → List Int
+  | a :: b :: rest => t.wrap (b - a) :: diffsIn t (b :: rest)
+  | _ => []
+
+/-- "some entry is smaller than its predecessor", as each test finds it on values stored in `t` -/
+def decreasesIn (t : IdxTy) : MonoTest → List Int → Bool
+  | .sliceCompare, p => !(nondecreasing p)
+  | .diffSign, p => (diffsIn t p).any (fun d => decide (d < 0))
 
 /-- the region where the constructor still accepts malformed input: the 0-d shape with stored data -/
 def ExcludedZeroDim (dataLen : Nat) (indices : List Int) (sh : List Int) : Prop := sh = [] ∧ ¬ (dataLen = 0 ∧ indices = [])
